@@ -290,6 +290,8 @@ def run_harness(binary, prop, vecfile, *, seed=1, tier="quick", shards=1, extra_
         p = subprocess.Popen(cmd, stdout=fo, stderr=fe, env=env, cwd=ROOT)
         return (p, fo, fe, shard, frm)
 
+    rr.again = lambda: run_harness(binary, prop, vecfile, seed=seed, tier=tier, shards=shards, extra_args=extra_args, timeout=timeout,
+                                   isolate=isolate, vlimit_kb=vlimit_kb, env_extra=env_extra)
     running = [start(s, f) for s, f in pending]
     restarts = 0
     while running:
@@ -440,14 +442,23 @@ class Check:
                         % (rr.spec_errors, rr.stderr[-3000:]))
 
     # -- triage
-    def triage(self, divs, *, replay=True, max_confirm=6, vlimit_kb=None, env_extra=None, binary=None):
-        """Group divergences by (api, finding, want/got class); confirm representatives by
-        re-running them alone; sort into known findings and violations."""
+    @staticmethod
+    def _group(divs):
         groups = {}
         for d in divs:
             sig = re.sub(r'"[^"]*"|[0-9]+', "#", (d.get("want") or "") + "|" + (d.get("got") or ""))[:60]
             key = (d.get("api"), sig) if not d.get("finding") else (d.get("finding"),)
             groups.setdefault(key, []).append(d)
+        return groups
+
+    def triage(self, divs, *, replay=True, max_confirm=6, vlimit_kb=None, env_extra=None, binary=None, rerun=None):
+        """Group divergences by (api, finding, want/got class); confirm representatives by
+        re-running them alone; sort into known findings and violations.  A group that does not
+        reproduce alone may depend on what the run did before it (state kept by the library between
+        calls): with `rerun` the whole run is repeated once, and a group that shows up again at the same
+        vectors is confirmed as such."""
+        groups = self._group(divs)
+        second = None
         for key, ds in groups.items():
             fid = ds[0].get("finding") or ""
             f = self.findings.get(fid)
@@ -467,6 +478,14 @@ class Check:
                 if any(r.get("api") == d.get("api") for r in rdivs):
                     confirmed = d
                     break
+            if confirmed is None and rerun is not None:
+                if second is None:
+                    log("a divergence group does not reproduce alone: repeating the whole run once")
+                    second = self._group(rerun().divs)
+                again = second.get(key)
+                if again:
+                    confirmed = dict(ds[0])
+                    confirmed["got"] = (confirmed.get("got") or "") + " [depends on the calls made before it in the run: reproduced by repeating the whole run, %d and %d occurrences]" % (len(ds), len(again))
             if confirmed is None:
                 self.unconfirmed += len(ds)
                 log("UNCONFIRMED divergence group %s (%d) - not reported" % (key, len(ds)))
